@@ -7,7 +7,7 @@ from .common import *  # noqa: F401,F403
 from .common import Check, OracleFailure, SymEnv, RealEnv, both, scratch_file, env_pixels, vals
 from .model import sym_bins, bins_frame, real_widths
 
-NEW = {"c0": "chromosome_zero_long", "c1": "x", "c2": "c0"}  # longer, shorter, and a name another chromosome used to have
+NEW = {"c0": "chromosome_zero_long", "c1": "x", "c2": "c0", "c3": "y3"}  # longer, shorter, and a name another chromosome used to have
 SWAP = {"c0": "c1", "c1": "c0", "c2": "q"}                   # a simultaneous swap: new names equal other chromosomes' old names
 
 
